@@ -2,7 +2,7 @@
 import re
 
 import anchors
-from core import (BA, call_matches, callee_paths, op_local, op_place, op_const, const_int, const_str, place_fields,
+from core import (BA, FAL, call_matches, callee_paths, op_local, op_place, op_const, const_int, const_str, place_fields,
                   rvalue_places, field_writes, taint, str_consts, decode_bytestr, decode_fmt_template, closure_sites)
 from facts import strip_generics
 from rules import common, dirt
@@ -53,18 +53,26 @@ def run(ctx):
         return
     O = ovr[0]
     G = gen[0]
+    # From here on the path rules run over *feasible* paths (core.FAL): when the decision part of start_self is a helper
+    # returning a value (`BuildPlan::decide(..)? -> Settled(rv) | Run(df)`), its returns join before the caller splits
+    # them again; "then-side -> join -> Run arm -> fork" is a block path no execution takes.
+    fa = FAL.of(SS)
     then_entries = [O[1], G[2]]
     bad_targets = z1 + fd + forks
     muts = [i for i in ba.all_calls() if is_mutator_call(SS.blocks[i]["term"])]
     for nm, st in (("override", O[1]), ("not-generated", G[2])):
-        common.not_reach(ctx, "R11.1", "%s|then-side(%s)-builds-nothing" % (SS.key, nm), SS, [st], bad_targets + muts,
-                         "the leave-alone side reaches neither zap_deps1, the .do search, the fork nor a mutator", "an existing file redo did not produce can still be rebuilt/overwritten")
-    readys = [i for i in ba.calls(r"core::future::ready::ready") if const_int(SS.blocks[i]["term"]["args"][0]) == 0]
-    common.mpt(ctx, "R11.1", "%s|then-side-returns-success" % SS.key, SS, then_entries, ba.returns() and common.ok_returns(SS), readys,
-               "the leave-alone side returns a ready EXIT_SUCCESS", "the leave-alone side does not return success")
+        common.not_reach_fl(ctx, "R11.1", "%s|then-side(%s)-builds-nothing" % (SS.key, nm), SS, [st], bad_targets + muts,
+                           "the leave-alone side reaches neither zap_deps1, the .do search, the fork nor a mutator", "an existing file redo did not produce can still be rebuilt/overwritten")
+    # "returns a ready EXIT_SUCCESS": the blocks where the constant 0 is chosen as the status a `future::ready(..)`
+    # resolves to - the call itself for `ready(EXIT_SUCCESS)`, the place the constant enters for `finished(EXIT_SUCCESS)` /
+    # `Settled(EXIT_SUCCESS)` .. `ready(rv)` - must lie on every feasible path from the then-side to an Ok return
+    readys = sorted({b_ for i in ba.calls(r"core::future::ready::ready") for b_ in common.const_int_entry_blocks(SS, i, 0, 0)})
+    common.mpt_fl(ctx, "R11.1", "%s|then-side-returns-success" % SS.key, SS, then_entries, ba.returns() and common.ok_returns(SS), readys,
+                 "the leave-alone side returns a ready EXIT_SUCCESS", "the leave-alone side does not return success")
     # set_static only when not overridden
-    statics = [i for i in ba.calls(r"state::File::set_static") if any(ba.path([e], [i], incl=True) for e in then_entries) and not ba.dominates(z1[0], i)]
-    inner = [(sw, t_t, f_t) for (sw, t_t, f_t) in common.field_switches(SS, "state::File.is_override") if any(ba.path([e], [sw], incl=True) for e in then_entries) and sw not in (O[0],)]
+    then_reach = fa.reach_incl(then_entries)
+    statics = [i for i in ba.calls(r"state::File::set_static") if i in then_reach and not ba.dominates(z1[0], i)]
+    inner = [(sw, t_t, f_t) for (sw, t_t, f_t) in common.field_switches(SS, "state::File.is_override") if sw in then_reach and sw not in (O[0],)]
     ok = bool(statics) and bool(inner) and all(any(ba.edge_dominates((sw, f_t), s) for (sw, t_t, f_t) in inner) for s in statics)
     ctx.ob("R11.1", "%s|set_static-only-if-not-override" % SS.key, ok, where=ctx.where(SS, statics[0]) if statics else SS.span,
            detail="set_static (which clears the override flag) is applied only when the file is not an override" if ok else "an overridden target is turned back into a plain source, losing the override flag")
@@ -89,12 +97,12 @@ def run(ctx):
         ov_side.append(t_t)
     clear_calls = [i for i in ba.all_calls() if any(p_ in clearers for p_ in callee_paths(SS.blocks[i]["term"]))]
     ctx.floor("R11.1", "File methods that clear the override flag", len(clearers), 3)
-    common.not_reach(ctx, "R11.1", "%s|override-side-keeps-the-flag" % SS.key, SS, ov_side + [O[1]] if not inner else ov_side, clear_calls,
-                     "on the is_override side of the leave-alone branch nothing clears the override flag before it is saved",
-                     "on the is_override side a File method that clears is_override (set_changed via update_stamp, set_static, ...) is called: after a second manual edit the flag is lost and a later redo overwrites the user's file",
-                     avoid=ba.calls(r"state::File::save"))
+    common.not_reach_fl(ctx, "R11.1", "%s|override-side-keeps-the-flag" % SS.key, SS, ov_side + [O[1]] if not inner else ov_side, clear_calls,
+                       "on the is_override side of the leave-alone branch nothing clears the override flag before it is saved",
+                       "on the is_override side a File method that clears is_override (set_changed via update_stamp, set_static, ...) is called: after a second manual edit the flag is lost and a later redo overwrites the user's file",
+                       avoid=ba.calls(r"state::File::save"))
     # the three mutation anchors are dominated by the guard test
-    ok = all(ba.dominates(E, x) for x in bad_targets) and bool(forks)
+    ok = all(fa.dominates(E, x) for x in bad_targets) and bool(forks)
     ctx.ob("R11.1", "%s|build-steps-dominated-by-guard" % SS.key, ok, where=ctx.where(SS, E), detail="zap_deps1, find_do_file and the fork are all dominated by the guard")
 
     # ---- R11.2
@@ -131,12 +139,16 @@ def run(ctx):
     dba = BA.of(do)
     spl = dba.calls(r"core::str::<impl str>::splitn")
     tk = dba.calls(r".*::iterator::Iterator::take")
-    eqc = dba.calls(r".*::iterator::Iterator::eq")
-    ok = len(spl) == 2 and len(tk) == 2 and len(eqc) == 1
+    # the two field sequences meet in one comparison, and the function answers "overridden" exactly when they differ:
+    # `!a.eq(b)` and `a.ne(b)` say the same (the result is followed back through `!`, copies and the early `return false`)
+    eqc = dba.calls(r".*::iterator::Iterator::(eq|ne)")
+    verdicts = [(neg, bb) for (neg, bb, t_) in common.bool_value_calls(do, {"copy": {"l": 0, "p": []}}) if bb in eqc]
+    differ = bool(verdicts) and all(neg != call_matches(do.blocks[bb]["term"], r".*::iterator::Iterator::ne") for (neg, bb) in verdicts)
+    ok = len(spl) == 2 and len(tk) == 2 and len(eqc) == 1 and differ
     vals = [(const_int(do.blocks[i]["term"]["args"][1]), (op_const(do.blocks[i]["term"]["args"][2]) or {}).get("int")) for i in spl]
     takes = [const_int(do.blocks[i]["term"]["args"][1]) for i in tk]
     ok = ok and all(t == 2 for t in takes) and all(v[1] == ord("-") and (v[0] or 0) >= 3 for v in vals)
-    ctx.ob("R11.3", "detect_override|first-two-fields", ok, where=do.span, detail="splitn(%s) take(%s) on both stamps, compared with eq" % (vals, takes))
+    ctx.ob("R11.3", "detect_override|first-two-fields", ok, where=do.span, detail="splitn(%s) take(%s) on both stamps, compared for (in)equality; true iff they differ: %s" % (vals, takes, differ))
     fm = prog.one(r"state::Stamp::from_metadata")
     fba = BA.of(fm)
     tmpl = [s for (_, _, s, nm) in str_consts(fm) if nm == "format_args"]
@@ -177,7 +189,7 @@ def run(ctx):
             # `match` lists both variants; `let Some(df) = .. else {..}` / `if let` list one and leave the other to `otherwise`
             none_arm = es[1][0] if 0 in es[1] else (es[2] if 1 in es[1] else None)
     if ctx.ob("R11.4", "%s|no-rule-arm" % SS.key, none_arm is not None, where=SS.span, detail="the `None` arm of find_do_file's result located"):
-        ex2 = [(sw, t_t, f_t) for (sw, t_t, f_t, cbb) in ba.switches_on_call(r"std::path::Path::exists") if ba.path([none_arm], [sw], incl=True) and sw != E and not ba.path([sw], forks, incl=True)]
+        ex2 = [(sw, t_t, f_t) for (sw, t_t, f_t, cbb) in ba.switches_on_call(r"std::path::Path::exists") if fa.path([none_arm], [sw], incl=True) and sw != E and not fa.path([sw], forks, incl=True)]
         ok = False
         if len(ex2) == 1:
             sw, t_t, f_t = ex2[0]
@@ -185,7 +197,7 @@ def run(ctx):
             sf = [i for i in ba.calls(r"state::File::set_failed") if ba.edge_dominates((sw, f_t), i)]
             ok = bool(st) and bool(sf)
         ctx.ob("R11.4", "%s|exists=>static|missing=>failed" % SS.key, ok, where=SS.span, detail="no rule: existing file -> set_static, missing -> set_failed")
-        common.not_reach(ctx, "R11.4", "%s|no-rule-mutates-nothing" % SS.key, SS, [none_arm], muts + forks, "the no-rule branch reaches no mutator and no fork", "the no-rule branch touches the filesystem")
+        common.not_reach_fl(ctx, "R11.4", "%s|no-rule-mutates-nothing" % SS.key, SS, [none_arm], muts + forks, "the no-rule branch reaches no mutator and no fork", "the no-rule branch touches the filesystem")
 
     forget_missing_target(ctx, "R11.5")
 
